@@ -1,8 +1,7 @@
-\* thorough exhaustive config: snaps a, b, c (+ snapd), at most 4 changes (<= 3 live is implied by NoOverlap
-\* for ordinary kinds; injected kinds and ready changes take the remaining slots)
+\* thorough exhaustive config: snaps a, b, c (+ snapd), at most 3 changes
 CONSTANTS
   Snaps <- MCSnaps3
-  MaxChanges = 4
+  MaxChanges = 3
 INIT Init
 NEXT Next
 CHECK_DEADLOCK FALSE
